@@ -143,8 +143,15 @@ def kernel_self_check(ctx, g):
                     tol = 5e-4 + 4e-7 * abs(2 * math.pi / lam * z)
                     if not (abs(re - H[i, j].real) <= tol and abs(im - H[i, j].imag) <= tol):
                         if tag == 'bl' and abs(abs(H[i, j]) - math.hypot(re, im)) > 0.5:
-                            # band-limit threshold decided differently in float32 and float64: only on a knife edge
-                            edge = True
+                            # 0 against a unit phasor: the band-limit comparison itself was decided differently.  That is a knife edge
+                            # only if the traced mask flips when its inputs move by a float32 rounding step
+                            flips = set()
+                            for s1 in (-3e-7, 0.0, 3e-7):
+                                for s2 in (-3e-7, 0.0, 3e-7):
+                                    e2 = dict(env, dx=env['dx'] * (1 + s1), z=env['z'] * (1 + s2))
+                                    flips.add(round(math.hypot(g.evalf('bl_re_%d_%d' % (i, j), e2), g.evalf('bl_im_%d_%d' % (i, j), e2))))
+                            if len(flips) > 1:
+                                ctx.log('kernel self-check: band-limit comparison on a float32 knife edge at', tag, i, j, env, '(skipped)'); continue
                         bad += 1; ctx.log('kernel self-check mismatch', tag, i, j, (re, im), H[i, j], env)
         # numpy: recover the kernel through the propagator on a delta spectrum is indirect; compare through the formula's use:
         k = 2 * math.pi / lam
